@@ -52,6 +52,13 @@ type Contract struct {
 	Atomic   []string
 	NoFrame  bool
 	Ghost    []BoundVar
+	Witness  []WitnessDecl
+}
+
+// WitnessDecl: a name usable in postconditions that stands for the final value
+// of a local variable of the function (a skolem constant at call sites).
+type WitnessDecl struct {
+	Name, Type, Local string
 }
 
 type Pred struct {
@@ -89,13 +96,14 @@ type PkgSpec struct {
 	Lemmas    []*Lemma
 	Extern    map[string]bool // extern interfaces: invoke = trace event
 	PureM     map[string]bool // "Iface.Method": deterministic, effect-free interface methods
+	ExtPost   map[string][]*Clause // "Iface.Method": assumed facts about results of extern calls
 	Closed    map[string]*ClosedIface
 	Protos    map[string]*Protocol
 	Locks     []*LockSpec
 	InitOnly  []string
 }
 
-var keywordRe = regexp.MustCompile(`^(func|pred|pure|axiom|lemma|extern|closed|protocol|lock|property|requires|ensures|case|modifies|loop|panics|inline|trusted|emits|allocs|unroll|shared|ghost|inv|threads|on|guar|protects|discipline|initonly|atomic|noframe|level|assume)\b`)
+var keywordRe = regexp.MustCompile(`^(func|witness|pred|pure|axiom|lemma|extern|closed|protocol|lock|property|requires|ensures|case|modifies|loop|panics|inline|trusted|emits|allocs|unroll|shared|ghost|inv|threads|on|guar|protects|discipline|initonly|atomic|noframe|level|assume)\b`)
 
 // parseContractFile extracts the //@ lines of a file.
 func parseContractComments(f *ast.File, fname string) []specLine {
@@ -194,7 +202,7 @@ func parseParams(s string) []BoundVar {
 
 func parsePkgSpec(pkg string, lines []specLine) (*PkgSpec, error) {
 	ps := &PkgSpec{Pkg: pkg, Contracts: map[string]*Contract{}, Preds: map[string]*Pred{}, Pure: map[string]*PureFn{},
-		Extern: map[string]bool{}, PureM: map[string]bool{}, Closed: map[string]*ClosedIface{}, Protos: map[string]*Protocol{}}
+		Extern: map[string]bool{}, PureM: map[string]bool{}, ExtPost: map[string][]*Clause{}, Closed: map[string]*ClosedIface{}, Protos: map[string]*Protocol{}}
 	var cur *Contract
 	var curCase *Case
 	var curProto *Protocol
@@ -265,6 +273,18 @@ func parsePkgSpec(pkg string, lines []specLine) (*PkgSpec, error) {
 				ci.Impls = append(ci.Impls, strings.TrimSpace(im))
 			}
 			ps.Closed[ci.Name] = ci
+		case "assume":
+			// assume Iface.Method ensures expr
+			i := strings.Index(rest, " ensures ")
+			if i < 0 {
+				return nil, fmt.Errorf("%s: assume Iface.Method ensures expr", l.where)
+			}
+			cl, err := parseLabelled(rest[i+len(" ensures "):], l.where)
+			if err != nil {
+				return nil, err
+			}
+			k := strings.TrimSpace(rest[:i])
+			ps.ExtPost[k] = append(ps.ExtPost[k], cl)
 		case "initonly":
 			for _, f := range strings.Split(rest, ",") {
 				ps.InitOnly = append(ps.InitOnly, strings.TrimSpace(f))
@@ -438,6 +458,17 @@ func (c *Contract) parseLine(curCase **Case, kw, rest, where string) error {
 		c.Atomic = append(c.Atomic, rest)
 	case "ghost":
 		c.Ghost = append(c.Ghost, parseParams(rest)...)
+	case "witness":
+		// witness b int = idx
+		parts := strings.SplitN(rest, "=", 2)
+		if len(parts) != 2 {
+			return fmt.Errorf("%s: witness name type = local", where)
+		}
+		bv := parseParams(parts[0])
+		if len(bv) != 1 {
+			return fmt.Errorf("%s: witness name type = local", where)
+		}
+		c.Witness = append(c.Witness, WitnessDecl{bv[0].Name, bv[0].Type, strings.TrimSpace(parts[1])})
 	default:
 		return fmt.Errorf("%s: unexpected clause %q in func contract", where, kw)
 	}
